@@ -367,13 +367,13 @@ class IH5InnerNode(IH5Node):
     # h5py-like interface
 
     def get(self, key: str, default=None):
+        self._guard_open()
+        self._guard_key(key)
         try:
-            return self[key]
-        except KeyError as e:
-            if str(e).find("not open") < 0:
-                return default
-            else:
-                raise
+            found_cidx = self._find(key)
+        except ValueError:
+            return default  # path leads into a dataset, nothing can exist there
+        return default if found_cidx is None else self._get_child(key, found_cidx)
 
     def __getitem__(self, key: str):
         self._guard_open()
@@ -391,7 +391,10 @@ class IH5InnerNode(IH5Node):
 
     def __contains__(self, key: str):
         self._guard_key(key)
-        return self._find(key) is not None
+        try:
+            return self._find(key) is not None
+        except ValueError:
+            return False  # path leads into a dataset, nothing can exist there (like h5py)
 
     def __iter__(self):
         return iter(self._children().keys())
